@@ -4,6 +4,7 @@
 package lang
 
 import (
+	"os"
 	"syscall"
 )
 
@@ -12,3 +13,7 @@ func unixProcAttrFauxTTY() *syscall.SysProcAttr {
 }
 
 func UnixPidToFg(_ *Process) {}
+
+// signalExitNum returns the exit number for a process that was terminated by a
+// signal. It is never zero.
+func signalExitNum(_ *os.ProcessState) int { return 1 }
